@@ -270,7 +270,22 @@ func Graph(r *mon.Rng, maxTypes int) *model.Schema {
 			}
 			t = &model.TypeDef{Name: tname(i), Root: a}
 		case "keystring":
-			switch r.Intn(3) {
+			switch r.Intn(7) {
+			case 3: // exactly one key
+				t = &model.TypeDef{Name: tname(i), Root: model.Str("only"+strconv.Itoa(i)).With(model.RBool("const", true))}
+			case 4: // a format
+				t = &model.TypeDef{Name: tname(i), Root: model.Str("k"+strconv.Itoa(i)+"@b.co").With(model.RStr("type", "email"))}
+			case 5, 6: // an alias / a union of key-string types declared before
+				if ks := g.stringTypeIdx(i); len(ks) > 0 {
+					a, b := tname(mon.Pick(r, ks)), tname(mon.Pick(r, ks))
+					if a == b || r.Bool() {
+						t = &model.TypeDef{Name: tname(i), Root: model.Ref(a)}
+					} else {
+						t = &model.TypeDef{Name: tname(i), Root: model.Ref(a, b)}
+					}
+					break
+				}
+				t = &model.TypeDef{Name: tname(i), Root: model.Str("kk"+strconv.Itoa(i)).With(model.RInt("minLength", 3), model.RInt("maxLength", 4))}
 			case 0:
 				rc := mon.Pick(r, RegexTable)
 				t = &model.TypeDef{Name: tname(i), Root: model.Str(mon.Pick(r, rc.Match)).With(model.RStr("regex", rc.Pattern))}
